@@ -22,6 +22,9 @@ MISFIT_CALLS = [
 # built-ins given *constant* arguments that a fast path could pre-process while the program is built (regular expressions, zone
 # names, conversions of literals), and zone names that are not zones (directories and odd entries of the tz database, empty, paths)
 CONSTANT_ARGS = [
+    # integer spellings the grammar may or may not accept (a parse error is fine; any other exception is not)
+    "0X1F", "-0X10", "0Xffu", "0XFFu + u1", "0x1F + i1", "0xffU", "0x0", "-0x0", "0x7FFFFFFFFFFFFFFF + i1", "0x8000000000000000", "-0x8000000000000000", "0xFFFFFFFFFFFFFFFFu", "0x10000000000000000u",
+    "0b101", "0o17", "1_000", "1e3u", "1.5u", "00x1", "0x", "0xg", "1u2",
     r"s1.matches('\ud800')", r"matches(s1, '\ud800')", r"s1.matches('\udfff' + '')", "s1.matches('(')", "s1.matches('[a-')", "matches(s1, '*')", r"s1.matches('\\')",
     r"s1.matches('\x00')", "s1.matches('(?P<n>a)(?P<n>b)')", "s1.matches('a{2,1}')", r"'\ud800'.matches(s1)", r"s1.matches('\ud800') || true", r"false && s1.matches('(')",
     r"s1.contains('\ud800')", r"s1.startsWith('\udc00')", r"s1.endsWith('\ud800')", r"size('\ud800') == i1", r"bytes('\ud800')", r"string(b'\xff')", r"int('\ud800')", r"double('\ud800')",
